@@ -432,3 +432,75 @@ def signconv(facts: CppFacts):
     res.samples = [f"ConvertToSigned: `{' '.join(rm.group(1).split())}`"]
     res.analysed = [PRELUDE]
     return res
+
+
+def bcdmasks(facts: CppFacts):
+    """R-BCDMASK (C02): `IsBcd` tests all nibbles in parallel with two constants, 0x66..6 and 0x88..8, that must span the
+    whole value type.  The sub-expressions of its test that do not depend on the value are folded with the typed
+    folder for `unsigned` and `uint64_t` (the two types the function is evaluated in): both constants must appear
+    at full width — a constant computed in `unsigned` leaves the upper eight nibbles of a 64-bit Bcd unchecked."""
+    res = RuleResult("R-BCDMASK")
+    fn = [f for f in facts.functions if f.name == "IsBcd"]
+    if not fn:
+        raise AnalysisError("IsBcd vanished")
+    f = fn[0]
+    body = re.sub(r"//[^\n]*|/\*.*?\*/", "", f.body, flags=re.S)
+    rets = re.findall(r"return\s+(.*?);", body, re.S)
+    rets = [r for r in rets if "==" in r and "IsBcd" not in r]
+    if not rets:
+        raise AnalysisError("IsBcd: the nibble test was not found")
+    pname = f.params[0][1] if f.params else "x"
+    try:
+        e = X.parse(rets[-1], type_names={"ValueType"})
+    except X.Unsupported as u:
+        raise AnalysisError(f"IsBcd: {u}")
+
+    def mentions(node):
+        if isinstance(node, tuple):
+            if node[0] == "name" and node[1] == pname:
+                return True
+            return any(mentions(c) for c in node[1:])
+        if isinstance(node, list):
+            return any(mentions(c) for c in node)
+        return False
+
+    consts = []
+
+    def collect(node):
+        if not isinstance(node, tuple):
+            return
+        if not mentions(node):
+            if node[0] != "lit":
+                consts.append(node)
+            return
+        for c in node[1:]:
+            if isinstance(c, tuple):
+                collect(c)
+            elif isinstance(c, list):
+                for d in c:
+                    collect(d)
+    collect(e)
+    if len(consts) < 2:
+        raise AnalysisError(f"IsBcd: only {len(consts)} value-independent sub-expressions found")
+    for w in (32, 64):
+        t = X.T(False, w)
+        vals = set()
+        for c in consts:
+            try:
+                v = X.evaluate(c, X.Env({}, {"ValueType": t}, {}))
+                vals.add((v.v, v.t.bits))
+            except X.UB as u:
+                res.add(f"{f.file}|IsBcd|ub|{w}", f"IsBcd<{t!r}>: undefined behaviour in a constant: {u}", f.file, f.line, "IsBcd")
+            except X.Unsupported as u:
+                raise AnalysisError(f"IsBcd: {u}")
+        for name, digit in (("0x66..6", 6), ("0x88..8", 8)):
+            res.instances += 1
+            want = int(str(digit) * (w // 4), 16)
+            if (want, w) not in vals and not any(v == want for v, _ in vals):
+                got = sorted(hex(v) for v, _ in vals)
+                res.add(f"{f.file}|IsBcd|{name}|{w}", f"IsBcd<{t!r}>: the constant {name} is not computed at the full {w}-bit width (constants "
+                        f"found: {got}): nibbles above the constant's width are never compared with 9, so a Bcd field with an invalid "
+                        "high digit is Ok() and reads as garbage", f.file, f.line, "IsBcd")
+    res.samples = [f"IsBcd: {len(consts)} constants folded for unsigned and uint64_t"]
+    res.analysed = [PRELUDE]
+    return res
